@@ -34,6 +34,7 @@ PUNCH = {
     "h3few": (["a", "b", "c"], ['10 PUNCH 7.5']),                       # fewer values than headings
     "h1many": (["a"], ['10 PUNCH 1.5, 2, "s", 77777']),                 # more values than headings
     "h0": ([], ['10 PUNCH 4.5, "t"']),                                  # no headings at all
+    "hlong": (["L" + "o" * 116 + "g", "b"], ['10 PUNCH "' + "x" * 131 + 'y", 2.5']),     # heading of 118 and text cell of 132 characters
     "h2cond": (["a", "b"], ['10 PUNCH 1.25', '20 IF STEP_NO > 1 THEN PUNCH STEP_NO']),   # PUNCH in only some rows
 }
 ROWS = ["init", "react3", "late", "inverse", "advect", "transport", "kinetics"]
@@ -416,6 +417,8 @@ def cases(tier):
             if rows in NEWROWS and blocks not in ([1], [1, 2]) and tier == "quick":
                 continue
             for punch in PUNCH:
+                if punch == "hlong" and rows == "late":
+                    continue          # the late redefinition renames its first column: that is F12's mechanism, covered by h1many / h0
                 if rows in NEWROWS and punch not in (("none", "h2ns") if tier == "quick" else ("none", "h2ns", "h1many", "h2cond")):
                     continue
                 for hp in (0, 1):
